@@ -23,7 +23,7 @@ PLAN = {
         "text": "Counter: per-call contracts of increment/absolute/flush over an arbitrary pre-state give, by induction, that the deltas of any sequential history add up to the increments (absolute-only: last - first) and that each delta is exactly what was added since the previous flush. Under concurrency the flusher is checked against the rely 'other threads execute any number of the two separate RMWs of increment between any two of my atomic steps': conservation sent + (current - last) == total, delta <= really added, invariant re-established, update accounting, and the footprint (one load, two swaps). increment/absolute are shown to perform exactly the step lists the rely is built from. Gauge: flush returns the cell content at the load (last completed write), never resets it. State::flush (Verus, unbounded number of keys): a counter key is skipped only if its delta is 0 and it was already reported idle, a zero is emitted once when a key goes idle, any update re-activates it, every gauge is written on every flush, and counters/gauges carry a timestamp exactly in the mode documented to send one. is_length_prefixed <=> Unix stream transport.",
         "note": "Assumed: SC atomics, each std atomic op is one step, memory orderings unchecked; idle-set (HashSet<Key>) and registry handle lists as abstract sets/sequences with assumed std specs; PayloadWriter::write_counter/write_gauge as recording stubs (their bytes are C09's contract); histogram section of State::flush cut out (AtomicBucket is C05's scope and unreachable for Kani); socket I/O (Forwarder::run) out of scope. Known protocol findings: see FINDINGS.md.",
     },
-    "min_obligations": {"quick": 12, "thorough": 12},
+    "min_obligations": {"quick": 19, "thorough": 19},
     "assumptions": [
         "atomics are sequentially consistent and every std atomic operation (load, store, swap, fetch_add, a successful fetch_update CAS) is one indivisible step; memory orderings (Relaxed/Acquire/Release/AcqRel in storage.rs) are NOT checked -- Kani has no weak-memory model",
         "rely of the flusher: a single flusher thread (State::flush is only called from the forwarder thread); other threads only call increment/absolute (counter) or set/increment/decrement (gauge), whose step lists are themselves proved (c10_counter_*_guarantee_rg)",
@@ -31,7 +31,8 @@ PLAN = {
         "the ghost amount added per environment step is bounded by 2^96 (and the initial backlog by 2^100) only to keep the unwrapped u128 ghost sum from overflowing; the wrapped u64 arithmetic is unrestricted",
         "histograms: AtomicHistogram::{record,flush,is_empty} delegate to metrics-util's AtomicBucket / AtomicSamplingReservoir (crossbeam-epoch; Kani ICE) -- 'every recorded value is sent in exactly one flush' is NOT claimed here (see C05/C16)",
         "State::flush (Verus): HashSet<Key> as an abstract set with the std contracts of insert/remove/contains; Registry::get_*_handles yields each registered key once (C06); Key::clone is the identity on the abstract key; PayloadWriter::write_* are recording stubs; tracing::error! and TelemetryUpdate are no-ops for the property",
-        "SystemTime::now()/duration_since are uninterpreted (any time value); only is_some() of the timestamp is specified",
+        "SystemTime::now()/duration_since are uninterpreted stubs; ASSUMED: the system clock is not before 1970-01-01 (duration_since(UNIX_EPOCH) is Ok); only is_some() of the timestamp is specified",
+        "declared rewrites in state.verus.rs: R2 (for -> loop/match over shim_next), R10 (SystemTime::UNIX_EPOCH -> shim_unix_epoch()), R11 (histogram section of State::flush replaced by a unit let: not under contract), R12 (Option<String>::as_deref -> shim, value irrelevant); tracing::error! expands to ()",
         "socket I/O (Forwarder::run / try_send, UdpSocket/UnixStream) is out of scope: 'what the agent socket receives' is claimed up to the payload list handed to the forwarder (C09) and the framing flag",
         "panic = failure; unwinding semantics not modelled",
     ],
@@ -63,4 +64,45 @@ PLAN = {
             H("c10_is_length_prefixed", "is_length_prefixed() <=> RemoteAddr::Unix (transport id 'uds-stream'); UDP and unixgram are not prefixed", module="__verif_c10_fw"),
         ],
     }],
+    "verus": [
+        {"template": "state.verus.rs", "tier": "quick", "rlimit": 300, "timeout": 900, "min_functions": 8},
+    ],
+    "witnesses": [
+        {"match": r"fn get_aggregation_timestamp/", "src": "witness_timestamp.rs", "crate": "metrics-exporter-dogstatsd", "file": STATE},
+        # the interleaving is replayed step by step through the counter's (private) atomics, hence the test module sits in storage.rs
+        {"match": r"fn flush/", "src": "witness_idle_skip.rs", "crate": "metrics-exporter-dogstatsd", "file": ST},
+    ],
+    # Findings on the tree as delivered (documentation only; the driver does not read this key).
+    # F1 and F2 are repaired by proposed_fix.diff (3 changed lines in state.rs, nextest 24/24); F3 is a proposed known finding.
+    "findings": [
+        {"id": "F1", "status": "defect, fixed by proposed_fix.diff (swap the two match arms)",
+         "obligation": "C10/state/impl State :: fn get_aggregation_timestamp/ensures:r.is_some() <==> documented_to_timestamp(self.config.agg_mode)",
+         "what": "builder.rs documents Conservative = no timestamp, Aggressive = timestamp; get_aggregation_timestamp returns Some(now) for Conservative and None for Aggressive",
+         "witness": "witness_timestamp.rs (fails on the real crate: Conservative payloads carry |T..., Aggressive ones do not)"},
+        {"id": "F2", "status": "defect (lost delta), fixed by proposed_fix.diff (`if points_flushed == 0 && value == 0`)",
+         "obligation": "C10/state/impl State :: fn flush/assert:value == 0",
+         "what": "State::flush skips an idle key on updates == 0 alone, but AtomicCounter::flush can return (delta != 0, updates == 0) because increment() is two separate RMWs "
+                 "(cover `updates == 0 && delta != 0` of C10/kani/c10_counter_flush_rg is SATISFIED); `last` was already advanced, so the skipped delta is lost",
+         "interleaving": ["key is idle (its zero was sent)",
+                          "A.increment(5): is_absolute.store(false); current.fetch_add(5)   -- preempted",
+                          "F.State::flush -> counter.flush(): current.load()=5; last.swap(5)->0; updates.swap(0)->0 => (5,0); points_flushed==0 && idle => continue",
+                          "A: updates.fetch_add(1)",
+                          "F.next flush: (0,1) => sends 0.  The 5 is never sent."],
+         "witness": "witness_idle_skip.rs (single-threaded replay of the schedule through the counter's atomics; real crate: sent=[0,0,0], total 0 != 5)",
+         "repair_notes": "with the 1-line repair a key is skipped only for (delta==0, updates==0, already idle); all step_ok clauses hold. 'bump updates before current' alone does NOT repair it "
+                         "(a thread stalled between its two RMWs over two flush intervals still yields (d,0) on an idle key)."},
+        {"id": "F3", "status": "protocol-level, not small-fixable => known finding",
+         "obligation": "C10/kani/c10_counter_flush_vs_first_absolute_rg",
+         "known_findings_line": "finding: property=C10 obligation=C10/kani/c10_counter_flush_vs_first_absolute_rg the first absolute(v) on a counter racing flush(): last.store(v) lands between flush's load(current)=0 and swap(last) => delta = 0 - v (wraps to 2^64 - v); needs (is_absolute,last,current) updated atomically",
+         "interleaving": ["fresh counter (is_absolute=false, last=0, current=0)",
+                          "T.absolute(v): is_absolute.swap(true) -> false (T will re-base last)",
+                          "F.flush: current.load() -> 0",
+                          "T: last.store(v)",
+                          "F: last.swap(0) -> v; delta = 0 - v = 2^64 - v   (sent as a counter of ~1.8e19)",
+                          "T: current.store(v); updates.fetch_add(1); the next flush sends v - 0 = v"],
+         "why_not_small_fixable": "`last` has two writers (flusher's swap, absolute's re-base) and the re-base must change (is_absolute,last,current) atomically w.r.t. the flusher's load(current);swap(last). "
+                                  "Re-ordering absolute's stores does not help (F.load(current)=0; T.current.store(v); T.last.store(v); F.swap(last)->v: same delta); clamping in flush (absolute mode && current<last => 0) "
+                                  "leaves last=0 so the next flush sends v. Needs a packed single-word state, a lock or a re-base handshake. No plain-Rust replay without source hooks (CBMC trace only). "
+                                  "Control obligation c10_counter_flush_vs_later_absolute_rg (already in absolute mode) passes."},
+    ],
 }
